@@ -1,4 +1,4 @@
-CONSTANTS Scope = "values" TableLo = 1 NTable = 6 MaxLen = 0 RunCalls = FALSE FreeJitter = FALSE Mutant = "none"
+CONSTANTS Scope = "values" TableLo = 1 NTable = 6 MaxLen = 0 RunCalls = FALSE Transports = {"grpc"} FreeJitter = FALSE Mutant = "none"
 SPECIFICATION Spec
 INVARIANT Inv_Resolve
 INVARIANT Inv_Loaded
